@@ -60,12 +60,12 @@ type opInfo struct {
 type l0Machine struct {
 	cfg     l0Config
 	w       *sim.World
-	ops     []*opInfo            // every emitted operation, emission order
-	byID    map[string]*opInfo   // "cuid:seq" -> info
-	perRep  [][]*opInfo          // per replica, own ops in emission order
-	labels  map[string]bool      // labels of this case
-	mapKeys map[string]bool      // every map key ever used
-	tagN    int                  // tag counter (C04)
+	ops     []*opInfo          // every emitted operation, emission order
+	byID    map[string]*opInfo // "cuid:seq" -> info
+	perRep  [][]*opInfo        // per replica, own ops in emission order
+	labels  map[string]bool    // labels of this case
+	mapKeys map[string]bool    // every map key ever used
+	tagN    int                // tag counter (C04)
 	steps   int
 	hist    []string
 	applied map[int]int // replica -> number of own buffer ops already linked to log
